@@ -64,7 +64,7 @@ func c08Concurrent(r *mon.Run, k int) error {
 		raws[i] = c.lab.NewRaw()
 		rngs[i] = r.RNG(0x08C100 + uint64(k)*64 + uint64(i))
 	}
-	rounds := r.Pick(40, 250)
+	rounds := r.Pick(120, 600)
 	perClient := 3
 	id := c.contract.ID
 	for round := 0; round < rounds; round++ {
